@@ -159,6 +159,25 @@ class K2(ZArr):
         return K2(self.shape, row, ent, self.T, self.cj)
 
 
+class KIso(ZArr):
+    """matrix seen as an operator on abstract vectors, x -> op(x), with given facts (isometry ...); shape (rows, cols)"""
+    is_kiso = True
+    def __init__(self, shape, op, cols=None, rows=None):
+        ZArr.__init__(self, shape, 'complex'); self.op = op; self.cols = cols; self.rows = rows
+
+
+class KCols(ZArr):
+    """matrix given by its columns as abstract vectors (col: a -> atom), shape (n, ncols)"""
+    is_kcols = True
+    def __init__(self, shape, col):
+        ZArr.__init__(self, shape, 'complex'); self.col = col
+
+
+def isometry_fact(op):
+    x, y = z3.Consts('x y', VecS)
+    return z3.ForAll([x, y], ip_atoms(op(x), op(y)).eq(ip_atoms(x, y)), patterns=[ipr(op(x), op(y)), ipi(op(x), op(y))])
+
+
 def zero_facts():
     x = z3.Const('x', VecS)
     return [z3.ForAll([x], z3.And(ip_atoms(x, ZEROV).eq(0), ip_atoms(ZEROV, x).eq(0)), patterns=[ipr(x, ZEROV), ipr(ZEROV, x), ipi(x, ZEROV), ipi(ZEROV, x)])]
@@ -230,6 +249,13 @@ def _window(ex, st, node, sl, n):
 
 
 def k_getitem(ex, st, node, base, key):
+    if getattr(base, 'is_kiso', False):
+        if (isinstance(key, int) or is_z(key)) and base.rows is not None:
+            i = norm_index(ex, st, node, key, base.shape[0], ast.unparse(node)[:40])
+            return KVec.atom(base.shape[1], base.rows(i))
+        if isinstance(key, tuple) and len(key) == 2 and _full_slice(key[0]) and isinstance(key[1], slice) and base.cols is not None:
+            return KCols((base.shape[0], _window(ex, st, node, key[1], base.shape[1])), base.cols)
+        raise Unsupported(f'index {ast.unparse(node)[:40]} of an operator-level matrix')
     if getattr(base, 'is_k2', False):
         if base.T:
             raise Unsupported('subscript of a transposed view')
@@ -337,6 +363,12 @@ def annihilates(row, hi, x, right=True):
 
 
 def k_matmul(ex, st, node, l, r):
+    if getattr(l, 'is_kiso', False) and getattr(r, 'is_kvec', False):
+        oblige(ex, st, node, 'shape', f'{ast.unparse(node)[:50]}: matmul inner dimensions', zint(l.shape[1]) == zint(r.shape[0]))
+        return KVec.atom(l.shape[0], l.op(materialize(st, r)))
+    if getattr(l, 'is_kiso', False) and getattr(r, 'is_kcols', False):
+        oblige(ex, st, node, 'shape', f'{ast.unparse(node)[:50]}: matmul inner dimensions', zint(l.shape[1]) == zint(r.shape[0]))
+        return KCols((l.shape[0], r.shape[1]), lambda a, op=l.op, col=r.col: op(col(a)))
     # (M.conj() @ w)[i] = vdot(M[i], w):  coefficients of w with respect to the rows of M
     if getattr(l, 'is_k2', False) and l.row is not None and not l.T and getattr(r, 'is_kvec', False):
         oblige(ex, st, node, 'shape', f'{ast.unparse(node)[:50]}: matmul inner dimensions', zint(l.shape[1]) == zint(r.shape[0]))
@@ -360,9 +392,16 @@ def k_matmul(ex, st, node, l, r):
     raise Unsupported('matmul outside the fragment')
 
 
+def _mod2_of(k1):
+    """k -> |c(k)|^2 of an array of scalars (kept in factored form where the array was built from exp and scalar multiples)"""
+    if getattr(k1, 'mod2', None) is not None:
+        return k1.mod2
+    return lambda k, f=k1.fn: f(k).re * f(k).re + f(k).im * f(k).im
+
+
 def k_binop(ex, st, node, op, l, r):
     lv = getattr(l, 'is_kvec', False); rv = getattr(r, 'is_kvec', False)
-    if isinstance(op, ast.MatMult) and (getattr(l, 'is_k2', False) or getattr(r, 'is_k2', False)):
+    if isinstance(op, ast.MatMult) and (getattr(l, 'is_k2', False) or getattr(r, 'is_k2', False) or getattr(l, 'is_kiso', False)):
         return k_matmul(ex, st, node, l, r)
     if lv and rv and isinstance(op, (ast.Add, ast.Sub)):
         oblige(ex, st, node, 'shape', f'{ast.unparse(node)[:50]}: operand shapes agree', zint(l.shape[0]) == zint(r.shape[0]))
@@ -372,7 +411,7 @@ def k_binop(ex, st, node, op, l, r):
         if isinstance(o, (int, float)) and not isinstance(o, bool) and o == 0:
             return l if lv else (r if isinstance(op, ast.Add) else r.scale(CV(-1)))
         raise Unsupported('vector plus scalar')
-    if (lv or rv) and isinstance(op, ast.Mult) and not (lv and rv):
+    if (lv or rv) and isinstance(op, ast.Mult) and not (lv and rv) and not getattr(r if lv else l, 'is_k1', False):
         c = _scalar_value(r if lv else l)
         if c is None:
             raise Unsupported('vector times a value without scalar value')
@@ -394,6 +433,26 @@ def k_binop(ex, st, node, op, l, r):
             st.pc.append(z3.ForAll([x], z3.Implies(ip_atoms(x, u).eq(0), ip_atoms(x, v).eq(0)), patterns=[ipr(x, v), ipi(x, v)]))
             st.pc.append(z3.ForAll([x], z3.Implies(ip_atoms(u, x).eq(0), ip_atoms(v, x).eq(0)), patterns=[ipr(v, x), ipi(v, x)]))
         return KVec.atom(l.shape[0], v)
+    # vectors of scalars: scalar * c, and the entrywise product c * x with an abstract vector
+    l1 = getattr(l, 'is_k1', False); r1 = getattr(r, 'is_k1', False)
+    if isinstance(op, ast.Mult) and (l1 != r1) and not (lv or rv):
+        c = _sv2(r if l1 else l); k1 = l if l1 else r
+        if c is None:
+            raise Unsupported('array of scalars times a value without scalar value')
+        res = K1(k1.shape[0], lambda k, f=k1.fn, c=c: f(k) * c, 'complex' if (k1.kind == 'complex' or not c.is_real) else 'real')
+        res.mod2 = lambda k, c=c, m=_mod2_of(k1): (c.re * c.re + c.im * c.im) * m(k)        # |c z|^2 = |c|^2 |z|^2
+        return res
+    if isinstance(op, ast.Mult) and ((l1 and rv) or (r1 and lv)):
+        c1, xv = (l, r) if l1 else (r, l)
+        oblige(ex, st, node, 'shape', f'{ast.unparse(node)[:50]}: operand shapes agree', zint(c1.shape[0]) == zint(xv.shape[0]))
+        u = materialize(st, xv); y = z3.Const(f'vec!{next(_n)}', VecS); kk = z3.Int('k')
+        m2 = _mod2_of(c1)
+        # entrywise product with coefficients of constant modulus (Krylov.lean: hadamard_constant_modulus): premise first
+        prem = ex.solver.implied([q for q in st.pc if is_z(q)], z3.ForAll([kk], z3.Implies(z3.And(0 <= kk, kk < zint(c1.shape[0])), m2(kk) == m2(z3.IntVal(0)))), final=True)
+        ex.lemma_uses.append(('hadamard_constant_modulus', node.lineno, prem))
+        if prem is True:
+            st.pc.append(ip_atoms(y, y).eq(CV(m2(z3.IntVal(0))) * ip_atoms(u, u)))
+        return KVec.atom(xv.shape[0], y)
     # scalars
     a, b = _sv2(l), _sv2(r)
     if a is not None and b is not None and (isinstance(l, KS) or isinstance(r, KS)):
@@ -440,7 +499,25 @@ def k_ifexp(ex, st, e):
     return z_ifexp(ex, st, e)
 
 
-LIB_K = {'np.linalg.norm': k_norm, 'np.vdot': k_vdot, 'getattr.real': k_real, 'getattr.eps': k_eps, 'np.zeros': k_zeros, 'getitem': k_getitem,
+EXPR = z3.Function('real_exp', R, R)
+_exp_re = z3.Function('cexp_re', R, R, R); _exp_im = z3.Function('cexp_im', R, R, R)
+
+def exp_facts():
+    """np.exp on complex numbers: |exp(z)|^2 = exp(2 Re z), exp(0) = 1 (real exponential)"""
+    a, b = z3.Reals('a b')
+    return [EXPR(0) == 1,
+            z3.ForAll([a, b], _exp_re(a, b) * _exp_re(a, b) + _exp_im(a, b) * _exp_im(a, b) == EXPR(2 * a), patterns=[_exp_re(a, b), _exp_im(a, b)])]
+
+def k_exp(ex, st, node, args, kw):
+    x = args[0]
+    if getattr(x, 'is_k1', False):
+        res = K1(x.shape[0], lambda k, f=x.fn: CV(_exp_re(f(k).re, f(k).im), _exp_im(f(k).re, f(k).im)), 'complex')
+        res.mod2 = lambda k, f=x.fn: EXPR(z3.simplify(2 * f(k).re))                       # |exp(z)|^2 = exp(2 Re z)
+        return res
+    raise Unsupported('exp outside the fragment')
+
+
+LIB_K = {'np.exp': k_exp, 'np.linalg.norm': k_norm, 'np.vdot': k_vdot, 'getattr.real': k_real, 'getattr.eps': k_eps, 'np.zeros': k_zeros, 'getitem': k_getitem,
          'setitem': k_setitem, 'getattr.T': k_T, '.conj': k_conj, 'binop': k_binop, 'compare': k_compare, 'ifexp': k_ifexp}
 
 
@@ -507,6 +584,8 @@ class KSolver(smt.Solver):
         r = 'unknown'
         if not _has_quant(f):
             r, _ = smt.check_unsat(ground + [z3.Not(f)], timeout=2000, try_cvc5=False)
+            if r == 'sat' and len(ground) < len([p for p in pc if is_z(p)]):
+                r = 'unknown'                  # a model of fewer hypotheses says nothing
         if r == 'unknown' and final:
             r = portfolio_unsat(self.axioms + [p for p in pc if is_z(p)] + [z3.Not(f)], self.TIMEOUT)
             if r == 'unknown' and os.environ.get('VT_KRY_DUMP'):
@@ -621,6 +700,93 @@ def arnoldi_spec():
     return dict(n=n, m=m, hermitian=False, post=post, canary=canary, inv={'for j in range(numiter - 1)': inv_outer, 'for k in range(j + 1)': inv_inner})
 
 
+# ---- C15: eigh_krylov / expm_krylov against the contracts of their callees ---------------------------------------------------
+
+_TOPS = {}
+
+def _tri_op(al, be):
+    """the operator of the symmetric tridiagonal matrix (alpha, beta) on coefficient vectors: one symbol per pair of arrays"""
+    key = (id(al.fn), id(be.fn), str(zint(al.shape[0])), str(zint(be.shape[0])))
+    if key not in _TOPS:
+        _TOPS[key] = (z3.Function(f'tridiag_op!{next(_n)}', VecS, VecS), al, be)      # keeps the arrays alive (ids stay unique)
+    return _TOPS[key][0]
+
+
+def k_lanczos_call(ex, st, node, args, kw):
+    """callee contract of lanczos_iteration as proved in C14 (vt/zkry.py, lanczos_spec): sizes, orthonormal vectors, projected map =
+    tridiagonal matrix -- in operator form (Krylov.lean: isometry_of_orthonormal_columns, projected_map_operator_form; the second
+    needs a linear map)"""
+    if len(args) != 3 or args[0] is not k_afunc or not getattr(args[1], 'is_kvec', False):
+        raise Unsupported('call of lanczos_iteration outside its contract')
+    nn = args[1].shape[0]; numiter = zint(args[2])
+    oblige(ex, st, node, 'precondition', 'lanczos_iteration: numiter >= 1', numiter >= 1)
+    mp = z3.Int(f'mp!{next(_n)}'); st.pc.append(z3.And(mp >= 1, mp <= numiter))
+    f = z3.Function(f'alpha!{next(_n)}', I, R); g = z3.Function(f'beta!{next(_n)}', I, R)
+    al = K1(mp, lambda k: CV(f(k)), 'real'); be = K1(mp - 1, lambda k: CV(g(k)), 'real')
+    vop = z3.Function(f'Vop!{next(_n)}', VecS, VecS); top = _tri_op(al, be)
+    x, y = z3.Consts('x y', VecS)
+    st.pc.append(isometry_fact(vop))
+    st.pc.append(z3.ForAll([x, y], ip_atoms(vop(x), Aop(vop(y))).eq(ip_atoms(x, top(y))), patterns=[ipr(vop(x), Aop(vop(y))), ipi(vop(x), Aop(vop(y)))]))
+    return (al, be, KIso((nn, mp), vop))
+
+
+def k_eigh_tridiagonal(ex, st, node, args, kw):
+    """assumed contract of scipy.linalg.eigh_tridiagonal(d, e) (conformance-tested): real ascending eigenvalues w, real orthogonal U
+    (orthonormal columns and rows, isometry as an operator) with T U[:, a] = w[a] U[:, a]"""
+    if len(args) != 2 or kw or not (getattr(args[0], 'is_k1', False) and getattr(args[1], 'is_k1', False)):
+        raise Unsupported('call of eigh_tridiagonal outside its contract')
+    al, be = args
+    mp = zint(al.shape[0])
+    oblige(ex, st, node, 'precondition', 'eigh_tridiagonal: len(e) == len(d) - 1', zint(be.shape[0]) == mp - 1)
+    f = z3.Function(f'ritz!{next(_n)}', I, R)
+    w = K1(mp, lambda k: CV(f(k)), 'real')
+    uop = z3.Function(f'Uop!{next(_n)}', VecS, VecS); ucol = z3.Function(f'Ucol!{next(_n)}', I, VecS); urow = z3.Function(f'Urow!{next(_n)}', I, VecS)
+    top = _tri_op(al, be)
+    x = z3.Const('x', VecS); a = z3.Int('a')
+    st.pc.append(isometry_fact(uop))
+    st.pc.append(orthonormal(lambda q: ucol(q), mp))
+    st.pc.append(z3.ForAll([a], z3.Implies(_in(a, mp), ip_atoms(urow(a), urow(a)).eq(1))))
+    st.pc.append(z3.ForAll([a, x], z3.Implies(_in(a, mp), ip_atoms(x, top(ucol(a))).eq(CV(f(a)) * ip_atoms(x, ucol(a)))), patterns=[ipr(x, top(ucol(a))), ipi(x, top(ucol(a)))]))
+    st.pc.append(z3.ForAll([a], z3.Implies(z3.And(_in(a, mp), _in(a + 1, mp)), f(a) <= f(a + 1))))
+    return (w, KIso((mp, mp), uop, cols=lambda q: ucol(q), rows=lambda q: urow(q)))
+
+
+def expm_spec():
+    n = z3.Int('n'); m = z3.Int('numiter'); dtr, dti = z3.Reals('dt_re dt_im')
+    holder = {}
+    def args(vs):
+        holder['v'] = vs
+        return {'Afunc': k_afunc, 'v': KVec.atom(n, vs), 'dt': KS(CV(dtr, dti), 'complex'), 'numiter': m, 'hermitian': True}
+    def post(ret, env, ex, st):
+        if not getattr(ret, 'is_kvec', False):
+            raise Unsupported('returned value is not an abstract vector')
+        v = holder['v']
+        return [('norm_of_result_equals_norm_of_input [imaginary dt]', z3.And(zint(ret.shape[0]) == n, ip(ret, ret).eq(ip_atoms(v, v))))]
+    def canary(ret, env, ex, st):
+        return [('c', ip(ret, ret).eq(CV(2) * ip_atoms(holder['v'], holder['v']) + CV(1)))]
+    return dict(n=n, m=m, hermitian=True, args=args, requires=[dtr == 0] + exp_facts(), post=post, canary=canary,
+                calls={'lanczos_iteration': k_lanczos_call, 'eigh_tridiagonal': k_eigh_tridiagonal})
+
+
+def eigh_spec():
+    n = z3.Int('n'); m = z3.Int('numiter'); ne = z3.Int('numeig')
+    def args(vs):
+        return {'Afunc': k_afunc, 'vstart': KVec.atom(n, vs), 'numiter': m, 'numeig': ne}
+    def post(ret, env, ex, st):
+        w, u = ret
+        if not (getattr(w, 'is_k1', False) and getattr(u, 'is_kcols', False)):
+            raise Unsupported('returned values are not of the expected abstract form')
+        nc = zint(u.shape[1])
+        return [('ritz_vectors_orthonormal', z3.And(zint(u.shape[0]) == n, zint(w.shape[0]) == nc, nc >= 1, nc <= ne, orthonormal(u.col, nc))),
+                ('ritz_values_are_rayleigh_quotients', z3.ForAll([a_], z3.Implies(_in(a_, nc), ip_atoms(u.col(a_), Aop(u.col(a_))).eq(w.fn(a_))))),
+                ('ritz_values_ascending', z3.ForAll([a_], z3.Implies(z3.And(_in(a_, nc), _in(a_ + 1, nc)), w.fn(a_).re <= w.fn(a_ + 1).re)))]
+    def canary(ret, env, ex, st):
+        w, u = ret
+        return [('c', z3.ForAll([a_], z3.Implies(_in(a_, zint(u.shape[1])), ip_atoms(u.col(a_), Aop(u.col(a_))).eq(w.fn(a_) + CV(1)))))]
+    return dict(n=n, m=m, hermitian=True, args=args, requires=[ne >= 1], post=post, canary=canary,
+                calls={'lanczos_iteration': k_lanczos_call, 'eigh_tridiagonal': k_eigh_tridiagonal})
+
+
 def verify_fn(fn, spec_fn, confirm):
     from .symexec import Exec, State
     from .libz import LIB_Z, make_loop_handler
@@ -630,19 +796,23 @@ def verify_fn(fn, spec_fn, confirm):
     fnode = loader.function(fn)
     lib = dict(LIB_Z); lib.update(LIB_K)
     solver = KSolver()
-    ex = Exec(lib=lib, calls={}, mode='Z', solver=solver, loop_handler=make_loop_handler(spec['inv']), fname=fn)
+    ex = Exec(lib=lib, calls=spec.get('calls', {}), mode='Z', solver=solver, loop_handler=make_loop_handler(spec.get('inv', {})), fname=fn)
     ex.assume_asserts = {'nrmv > 0'}; ex.lemma_uses = []
     vs = z3.Const('vstart', VecS)
-    args = {'Afunc': k_afunc, 'vstart': KVec.atom(n, vs), 'numiter': m}
-    requires = [n >= 1, m >= 1, EPS > 0] + zero_facts() + symmetry_facts(spec['hermitian'])
+    args = spec['args'](vs) if 'args' in spec else {'Afunc': k_afunc, 'vstart': KVec.atom(n, vs), 'numiter': m}
+    requires = [n >= 1, m >= 1, EPS > 0] + zero_facts() + symmetry_facts(spec['hermitian']) + list(spec.get('requires', []))
     st = State(args, requires)
     params = [a.arg for a in fnode.args.args]
     def V(name, status, detail, kind='ensures'):
         v = Verdict(name, 'Z', status, detail, 0.0, fn, kind, 'z3'); v.confirm = confirm
         return v
     try:
-        if [p for p in params if p not in args]:
+        ndef = len(fnode.args.defaults)
+        if [p for p in (params[:-ndef] if ndef else params) if p not in args]:
             raise Unsupported(f'stale contract: parameters {params}')
+        for p_, d_ in zip(params[len(params) - ndef:], fnode.args.defaults):
+            if p_ not in st.env:
+                st.env[p_] = ast.literal_eval(d_)
         states = ex.block(fnode.body, [st])
     except Refuted as e:
         return [V('executes_at_inner_product_level', 'undecided', f'{e} (the size/index contracts of this function decide such failures)', 'safety')]
@@ -688,9 +858,13 @@ def verify_fn(fn, spec_fn, confirm):
     return out
 
 
+TARGETS = {'C14': (('krylov.arnoldi_iteration', arnoldi_spec, ['arnoldi_iteration']), ('krylov.lanczos_iteration', lanczos_spec, ['lanczos_iteration'])),
+           'C15': (('krylov.expm_krylov', expm_spec, ['expm_krylov']), ('krylov.eigh_krylov', eigh_spec, ['eigh_krylov']))}
+
+
 def verify(prop='C14', tier='quick'):
     out = []
-    for fn, spec, confirm in (('krylov.arnoldi_iteration', arnoldi_spec, ['arnoldi_iteration']), ('krylov.lanczos_iteration', lanczos_spec, ['lanczos_iteration'])):
+    for fn, spec, confirm in TARGETS.get(prop, ()):
         try:
             out += verify_fn(fn, spec, confirm)
         except Exception as e:
@@ -703,5 +877,5 @@ def verify(prop='C14', tier='quick'):
 if __name__ == '__main__':
     import sys
     smt.EXTERNAL[0] = True
-    for v in verify():
+    for v in verify(sys.argv[1] if len(sys.argv) > 1 else 'C14'):
         print(v.status, v.fn, v.name, '|', str(v.detail)[:150])
